@@ -8,3 +8,23 @@ mod bucket_list_result;
 mod bucket_object;
 mod bucket_object_field;
 mod downloaded_bucket_object;
+
+#[cfg(nexrad_verif)]
+pub(crate) mod verif {
+    /// Verification hook: when `NEXRAD_VERIF_S3_ENDPOINT` is set, requests to
+    /// `https://<bucket>.s3.amazonaws.com...` are sent to `<endpoint>/<bucket>...` instead.
+    pub(crate) fn rewrite(path: String) -> String {
+        let endpoint = match std::env::var("NEXRAD_VERIF_S3_ENDPOINT") {
+            Ok(endpoint) => endpoint,
+            Err(_) => return path,
+        };
+        let marker = ".s3.amazonaws.com";
+        match (path.strip_prefix("https://"), path.find(marker)) {
+            (Some(rest), Some(at)) => {
+                let bucket = &rest[..at - "https://".len()];
+                format!("{}/{}{}", endpoint, bucket, &path[at + marker.len()..])
+            }
+            _ => path,
+        }
+    }
+}
